@@ -175,6 +175,43 @@ def one_case(rng, res):
         scen.drop_root(root)
 
 
+MALFORMED_SETS = [[], (), "", [("A", "x")], (("A", "x"),), [["A", "x"]], "A=x", 5, {"A"}, ["A"], [{"A": "x"}]]
+
+
+def malformed_set_case(rng, res, case_no=None):
+    """A parameter set that is not a dictionary of names and strings at all (an empty list, a list of pairs, a string, a
+    set, ...): malformed - verification fails, whatever `dict()` would make of the value."""
+    root = scen.new_root()
+    try:
+        n_ = case_no if case_no is not None else rng.randrange(1 << 20)
+        if n_ % 2 == 0:
+            # a layout without any placeholder: nothing needs a value, the set alone is what is wrong
+            ch = scen.gen_chain(rng, root, n_steps=rng.choice([1, 2]), n_insp=rng.choice([0, 1]), thresholds=(1,), max_funcs=1)
+            desc = {"where": [], "layout_fmt": ch.layout_fmt}
+            scn = scen.build(ch, root, rng)
+            odd = MALFORMED_SETS[(n_ // 2) % len(MALFORMED_SETS)]
+        else:
+            # placeholders, and every value they need - handed over as pairs instead of a dictionary
+            ch, desc, params = gen_case(rng, root)
+            scn = scen.build(ch, root, rng)
+            fix_insp_table(scn, params)
+            pairs = list((params or {}).items())
+            odd = [pairs, tuple(pairs), [list(p_) for p_ in pairs], tuple(tuple(p_) for p_ in pairs)][(n_ // 2) % 4]
+        scn.params = [odd]             # (one verification with this value as the parameter set)
+        try:
+            i = scn.run_impl(root=root)
+        except Exception as e:  # pylint: disable=broad-except
+            i = {"load": "ok", "result": {"err": W.exc_class(e)}}
+        case = {"op": "malformed_parameter_set", "parameters": repr(odd), "where": desc["where"], "layout_fmt": desc["layout_fmt"]}
+        acc = vcommon.accepted(i) if isinstance(i, dict) and "result" in i else False
+        res.case(dict(case, impl=vcommon.short(i) if isinstance(i, dict) and "result" in i else str(i)[:80]), True, not acc, sample_cap=1)
+        res.count("malformed_parameter_set")
+        if acc:
+            res.fail("oracle", case, {"why": "verification succeeded with a parameter set that is not a dictionary of names and strings"})
+    finally:
+        scen.drop_root(root)
+
+
 def judge_mutation(res, scn, desc, i, why):
     f = {"format": "metablock" if "signed" in scn.layout else "dsse",
          "gate_passed": i["result"].get("err") not in ("SignatureVerificationError", "LayoutExpiredError"),
@@ -266,6 +303,7 @@ def shard(seed, idx, n, tier):
             one_sequence(rng, res)
         else:
             one_case(rng, res)
+    malformed_set_case(rng, res, case_no=idx)
     return res
 
 
